@@ -120,40 +120,42 @@ CHECKS = {
         design_ref="DESIGN.md sections 5 (C17) and 10.2",
         technique="Coq proof (well-formedness for every analysed text; exact extents for every valid program by composition with the C04 round trip) over a Gallina model of the folding handler + correspondence through the binary"),
     "C09": dict(
-        category="other",
-        text="Machine-checked (Props/C09.v, 26 theorems) over the model of formatting.rs (Model/Format.v). For EVERY valid program "
-             "with comments in ANY gap, every layout and option setting, the formatted text lexes to the same NON-COMMENT token "
-             "kinds and literal values, without lexical error (C09_tokens_any, C09_document_any, C09_total_any: the printer is the "
-             "abstract printer pp_prog, its output the rendering of `kept p` - unprinted comment slots emptied, hoisted comments "
-             "moved - which has the same code tokens in order). In detail, for programs without comments or with comments in "
-             "leading positions: the "
-             "formatter emits exactly the spellings of the program's tokens, in order, separated only by whitespace that is "
-             "non-empty wherever two spellings would otherwise merge (C09_structure, C09_structure_lead, by structural induction "
-             "over the abstract syntax), hence the formatted text lexes to the same non-comment token kinds AND literal values "
-             "with no lexical error (C09_tokens, C09_tokens_lead, C09_document, via C06 conformance); the single edit covers "
-             "exactly the whole document (C09_whole_edit, C09_whole_document_covers); and the formatted text of every comment-free "
-             "syntactically valid program, well-typed or not, is analysed to the same tree and table and yields the same "
-             "diagnostics - same messages, same order, same token-index ranges (C09_same_diagnostics: the analysis reads kinds "
-             "only). Stated, not proved: equality of diagnostics for programs with comments (which comments "
-             "survive is C10's business: C09_comments_any characterises them exactly). Decided per input there: "
-             "model = real formatter on generated programs x layouts x options, and an implementation oracle re-lexes the "
-             "formatted text with the real lexer, re-opens it (same diagnostics up to layout) and checks the edit range.",
+        category="proof",
+        text="Machine-checked (Props/C09.v, 27 theorems) over the model of formatting.rs (Model/Format.v); every clause of the "
+             "property is a theorem for EVERY valid program with comments in ANY gap, every layout and option setting. (1) The "
+             "formatted text lexes to the same NON-COMMENT token kinds and literal values, without lexical error (C09_tokens_any, "
+             "C09_document_any, C09_total_any: the printer equals the abstract printer pp_prog, its output is the rendering of "
+             "`kept p` - unprinted comment slots emptied, hoisted comments moved - which has the same code tokens in order; for "
+             "programs without comments or with leading comments the output is literally the program's token spellings separated "
+             "by non-merging whitespace: C09_structure(_lead), separator table, literal round trips). (2) It produces the same "
+             "diagnostics: well-typed or not, the formatted text is analysed to the same messages in the same order "
+             "(C09_same_messages_any: the analysis commutes with erasing ranges, offsets and doc comments; for comment-free "
+             "programs even the same tree, table and token-index ranges: C09_same_diagnostics). (3) The single edit covers exactly "
+             "the whole document (C09_whole_edit, C09_whole_document_covers). Stated, not proved: that the diagnostics' RANGES "
+             "correspond token by token when comments are dropped or moved (C09_same_ranges_statement; holds on the instances). Tie "
+             "to the code and failing-input search: model = real formatter on generated programs x layouts x options; the "
+             "implementation oracle re-lexes the formatted text with the real lexer, re-opens it (same diagnostics up to layout) "
+             "and checks the edit range; answers along edit histories.",
         design_ref="DESIGN.md section 5, C09",
-        technique="Coq proof (structural induction over the abstract syntax: the printers emit the program's token spellings; separator table; lexical conformance) over a Gallina model of the formatter + correspondence and re-lex/re-analyse oracle through the binary"),
+        technique="Coq proof (the printers emit the program's code tokens for every valid program with comments anywhere; the analysis commutes with the erasure of ranges and comments; separator table; lexical conformance) over a Gallina model of the formatter + correspondence and re-lex/re-analyse oracle through the binary"),
     "C10": dict(
         category="other",
         text="The property does NOT hold for the code as it is: the faithful model refutes it (Props/C10.v C10_refuted, witness "
              "`proc main() {<LF>// c<LF>}`), and the losses are structural (comments skipped by tag parsers in front of closing "
              "tokens, inside headers and expressions, before EOF are never re-attached) - recorded as 22 known findings "
-             "C10-gap-<kind>, one per losing gap kind, not repaired. Machine-checked on the positive side: for every program whose "
-             "comments stand in leading positions (in front of type / proc / var / a parameter / the first token of a statement), "
-             "every layout and option setting, the formatted text lexes to the same comment bodies in the same order - none lost, "
-             "none duplicated (C10_lead_comments_kept); the two comment helpers emit every comment of their slice exactly once "
-             "and in order. The check puts one comment into EVERY token gap of generated programs in turn (exhaustive per program) "
-             "plus multi-comment layouts: a comment lost in a gap kind that is not listed, or any duplicated / reordered comment, "
-             "is a violation; listed kinds print KNOWN-FINDING while their witnesses still fail.",
+             "C10-gap-<kind>, one per losing gap kind, not repaired; hence `other`. What IS true is proved exactly, for EVERY "
+             "valid program with comments in ANY gap, every layout and option setting (Props/C10.v, 10 theorems): the comments of "
+             "the formatted document are precisely the comments of `kept p` - the program with the unprinted comment slots emptied "
+             "and the hoisted comments moved to the front of their declaration / statement - in order, each once "
+             "(C10_comments_exactly_kept); they form an order-preserving SUBSEQUENCE of the source's comments, so formatting never "
+             "invents, duplicates or reorders a comment, it only loses (C10_no_comment_invented_or_duplicated); and nothing is lost "
+             "IF AND ONLY IF every comment stands in a printed slot (C10_all_kept_iff; comments in leading positions always do: "
+             "C10_lead_only_all_printed, C10_lead_comments_kept). The check puts one comment into EVERY token gap of generated "
+             "programs in turn (exhaustive per program) plus multi-comment layouts: a comment lost in a gap kind that is not "
+             "listed, or any duplicated / reordered comment, is a violation; listed kinds print KNOWN-FINDING while their "
+             "witnesses still fail.",
         design_ref="DESIGN.md section 5, C10",
-        technique="Coq refutation witness + proof that leading comments are kept exactly once + exhaustive per-program gap campaign discriminating known gap kinds"),
+        technique="Coq refutation witness + exact characterisation of the surviving comments for every valid program (subsequence, iff-condition) + exhaustive per-program gap campaign discriminating known gap kinds"),
     "C11": dict(
         category="proof",
         text="Machine-checked (Props/C11.v, 20 theorems) over the models of the formatter and the parser; every clause of the "
